@@ -66,8 +66,6 @@ func (_ *StorageSmartContract) killBlobber(
 				return err
 			}
 
-			stakePool.TotalOffers = 0
-
 			return stakePool.Save(spenum.Blobber, req.ID, balances)
 		},
 		balances,
